@@ -150,3 +150,138 @@ where
         rows,
     })
 }
+
+#[derive(Clone, Copy, Debug, PartialEq, Eq)]
+pub enum Route {
+    InProc64,
+    InProc128,
+    Cli,
+}
+
+/// in-process build through `build_and_merge` (threads = 1) -> table decoded by the harness
+pub fn inproc_build<IntT>(files: &[(String, String)], k: usize, rc: bool) -> Result<Table, String>
+where
+    IntT: for<'a> ska::ska_dict::bit_encoding::UInt<'a> + Into<u128>,
+{
+    use ska::merge_ska_dict::{build_and_merge, InputFastx};
+    use ska::{QualFilter, QualOpts};
+    let q = QualOpts {
+        min_count: 1,
+        min_qual: 0,
+        qual_filter: QualFilter::NoFilter,
+    };
+    let input: Vec<InputFastx> = files
+        .iter()
+        .map(|(n, f)| (n.clone(), f.clone(), None))
+        .collect();
+    let r = std::panic::catch_unwind(std::panic::AssertUnwindSafe(|| {
+        let d = build_and_merge::<IntT>(&input, k, rc, &q, 1, None);
+        let mut rows = std::collections::BTreeMap::new();
+        for (kmer, syms) in d.kmer_dict() {
+            let v: Vec<u8> = syms.iter().map(|b| if *b == 0 { b'-' } else { *b }).collect();
+            rows.insert(model::unpack_arms((*kmer).into(), k), v);
+        }
+        (d.kmer_len(), d.rc(), Table { names: d.names().clone(), rows })
+    }));
+    match r {
+        Err(e) => Err(panic_msg(&e)),
+        Ok((k2, rc2, t)) => {
+            if k2 != k || rc2 != rc {
+                Err(format!("PROP merged dictionary reports k={k2} rc={rc2}"))
+            } else {
+                Ok(t)
+            }
+        }
+    }
+}
+
+pub fn panic_msg(e: &Box<dyn std::any::Any + Send>) -> String {
+    if let Some(s) = e.downcast_ref::<String>() {
+        s.clone()
+    } else if let Some(s) = e.downcast_ref::<&str>() {
+        s.to_string()
+    } else {
+        "panic".into()
+    }
+}
+
+/// Build the samples (files already written; `files` = (name, path)) by the chosen route.
+/// Ok(table) or Err(refusal message). Infra problems come back as Err("INFRA ...").
+pub fn observe_build(ctx: &Ctx, dir: &Path, tag: &str, files: &[(String, String)], k: usize, rc: bool, route: Route) -> Result<Table, String> {
+    match route {
+        Route::InProc64 => inproc_build::<u64>(files, k, rc),
+        Route::InProc128 => inproc_build::<u128>(files, k, rc),
+        Route::Cli => {
+            let mut list = String::new();
+            for (n, f) in files {
+                list += &format!("{n}\t{f}\n");
+            }
+            let lp = dir.join(format!("{tag}_list.txt"));
+            std::fs::write(&lp, list).expect("list");
+            let out = cli::p(&dir.join(tag));
+            let ks = k.to_string();
+            let lps = cli::p(&lp);
+            let mut args: Vec<&str> = vec!["build", "-f", &lps, "-o", &out, "-k", &ks];
+            if !rc {
+                args.push("--single-strand");
+            }
+            let o = run_ska(ctx, dir, &args);
+            if let Some(m) = o.infra() {
+                return Err(format!("INFRA {m}"));
+            }
+            if !o.ok() {
+                return Err(o.err_tail());
+            }
+            let o2 = run_ska(ctx, dir, &["nk", "--full-info", &format!("{out}.skf")]);
+            if let Some(m) = o2.infra() {
+                return Err(format!("INFRA {m}"));
+            }
+            if !o2.ok() {
+                return Err(format!("PROP nk failed on a file ska build just wrote: {}", o2.err_tail()));
+            }
+            let nk = model::parse_nk(&o2.out_str()).map_err(|e| format!("PROP {e}"))?;
+            if nk.header.get("k").map(|s| s.as_str()) != Some(&k.to_string()) || nk.header.get("rc").map(|s| s.as_str()) != Some(&rc.to_string()) {
+                return Err(format!("PROP nk header k/rc wrong: {:?}", nk.header));
+            }
+            if nk.duplicate_rows > 0 {
+                return Err("PROP duplicate rows in nk".into());
+            }
+            Ok(nk.table())
+        }
+    }
+}
+
+/// first difference between two tables, for messages
+pub fn table_diff(a: &Table, b: &Table) -> String {
+    if a.names != b.names {
+        return format!("names {:?} vs {:?}", a.names, b.names);
+    }
+    let mut msg = String::new();
+    let mut n = 0;
+    for (arms, r) in &a.rows {
+        match b.rows.get(arms) {
+            None => {
+                n += 1;
+                if n <= 4 {
+                    msg += &format!(" only-left {}:{};", model::show_arms(arms), lossy(r));
+                }
+            }
+            Some(r2) if r2 != r => {
+                n += 1;
+                if n <= 4 {
+                    msg += &format!(" {}: {} vs {};", model::show_arms(arms), lossy(r), lossy(r2));
+                }
+            }
+            _ => {}
+        }
+    }
+    for (arms, r) in &b.rows {
+        if !a.rows.contains_key(arms) {
+            n += 1;
+            if n <= 6 {
+                msg += &format!(" only-right {}:{};", model::show_arms(arms), lossy(r));
+            }
+        }
+    }
+    format!("{n} row differences ({} vs {} rows):{msg}", a.rows.len(), b.rows.len())
+}
